@@ -1,0 +1,61 @@
+//go:build verif
+
+package serf
+
+import (
+	"io"
+	"log"
+	"net"
+)
+
+// Accessors for the message / tag / filter / relay codecs, used only by the
+// verification harness (/verif). Compiled only with -tags verif. The aliases
+// make the unexported wire structs constructible from the harness; no logic is
+// duplicated here: every function calls the codec the node itself uses.
+
+type (
+	VerifMsgJoin          = messageJoin
+	VerifMsgLeave         = messageLeave
+	VerifMsgPushPull      = messagePushPull
+	VerifMsgUserEvent     = messageUserEvent
+	VerifMsgQuery         = messageQuery
+	VerifMsgQueryResponse = messageQueryResponse
+	VerifUserEvents       = userEvents
+	VerifUserEvent        = userEvent
+	VerifRelayHeader      = relayHeader
+	VerifFilterNode       = filterNode
+	VerifFilterTag        = filterTag
+)
+
+// VerifEncodeMessage is encodeMessage.
+func VerifEncodeMessage(t uint8, msg any, newTimeFormat bool) ([]byte, error) {
+	return encodeMessage(messageType(t), msg, newTimeFormat)
+}
+
+// VerifDecodeMessage is decodeMessage (buf without the leading type byte).
+func VerifDecodeMessage(buf []byte, out any) error { return decodeMessage(buf, out) }
+
+// VerifEncodeRelayMessage is encodeRelayMessage.
+func VerifEncodeRelayMessage(t uint8, addr net.UDPAddr, nodeName string, msg any) ([]byte, error) {
+	return encodeRelayMessage(messageType(t), addr, nodeName, msg)
+}
+
+// VerifEncodeFilter is encodeFilter.
+func VerifEncodeFilter(t uint8, filt any) ([]byte, error) { return encodeFilter(filterType(t), filt) }
+
+func verifBareSerf(proto uint8) *Serf {
+	return &Serf{
+		config: &Config{ProtocolVersion: proto},
+		logger: log.New(io.Discard, "", 0),
+	}
+}
+
+// VerifEncodeTags is (*Serf).encodeTags on a node running protocol version proto.
+func VerifEncodeTags(proto uint8, tags map[string]string) []byte {
+	return verifBareSerf(proto).encodeTags(tags)
+}
+
+// VerifDecodeTags is (*Serf).decodeTags on a node running protocol version proto.
+func VerifDecodeTags(proto uint8, buf []byte) map[string]string {
+	return verifBareSerf(proto).decodeTags(buf)
+}
